@@ -229,10 +229,11 @@ class C36(Spec):
     family = 'int'
     title = 'a crashed or disconnected party never makes others output wrong values'
     technique = ('deterministic simulation with crash injection: fault-free twin run fixes the execution, one party '
-                 'is crash-stopped at a chosen loop iteration of it (mid-frame cuts, FIN/RST/silent), prefix oracle on survivors')
+                 'is crash-stopped at a chosen loop iteration of it (mid-frame cuts, FIN/RST/silent) or one of its '
+                 'connections is broken while both ends live on (reset / one-sided reset / stall), prefix oracle on survivors')
     quick = {'runs': 5000, 'wall': 80}
     thorough = {'runs': 3000000, 'wall': 900}
-    expected_probes = ('crash_fired', 'crash_midframe', 'survivor_outputs_checked')
+    expected_probes = ('crash_fired', 'crash_midframe', 'disconnect_fired', 'survivor_outputs_checked')
     rule = ('one evaluation = fault-free twin run + the same seeded execution with one party crash-stopped at a chosen '
             'iteration; distinct = sha256(configuration, program, crash plan, tape); non-trivial = the crash fired while '
             'the victim was alive and at least one survivor had not finished')
@@ -314,6 +315,11 @@ class C36(Spec):
             step = rng.randint(1, twin.steps)
         w.close()
         how = rng.choice(('fin', 'fin', 'rst', 'silent'))
+        link = None
+        if cfg.m >= 2 and rng.random() < 0.2:
+            # disconnection without a crash: only the connection victim <-> link breaks, both parties live on
+            link = rng.choice([q for q in range(cfg.m) if q != victim])
+            how = rng.choice(('rst', 'rst', 'half', 'silent'))
         cut = {}
         rc = rng.random()
         if rc < 0.35:
@@ -323,6 +329,8 @@ class C36(Spec):
         elif rc < 0.75:
             cut = {str(rng.randrange(cfg.m)): rng.random()}
         case = dict(case, tape=twin.tape, crash={'pid': victim, 'step': step, 'how': how, 'cut_frac': cut})
+        if link is not None:
+            case['crash']['link'] = link
         case['opts'] = {}
         return case
 
@@ -360,6 +368,8 @@ class CrashProbe:
             return
         unfinished = [p for p in w.parties if not p.crashed and p.result is None]
         pr['crash_fired'] = 1
+        if cp.get('link') is not None:
+            pr['disconnect_fired'] = 1
         pr['crash_midframe'] = int(w.stats.get('crash_cut_midstream', 0) > 0)
         pr['survivors_blocked_or_failed'] = len(unfinished)
         pr['survivors_finished'] = sum(1 for p in w.parties if not p.crashed and p.result is not None)
